@@ -141,7 +141,22 @@ func progressGoal(s *simState, probe *int) (bool, string) {
 		}
 	}
 	if !r.configs.IsStable() {
-		return false, fmt.Sprintf("membership change pending on leader %d: %s committed=%v", ldr.id, canonConfig(r.configs.Latest), r.configs.IsCommitted())
+		// Promote and Remove wait, by design, for the node concerned to catch up (ForceRemove exists for
+		// nodes that do not come back): an action whose subject stays away need not complete
+		pending := !r.configs.IsCommitted()
+		for id, nd := range r.configs.Latest.Nodes {
+			if nd.Action == None {
+				continue
+			}
+			away := int(id-1) == exclude || !w.nodes[id-1].up
+			if away && (nd.nextAction() == Promote || nd.nextAction() == Remove) {
+				continue
+			}
+			pending = true
+		}
+		if pending {
+			return false, fmt.Sprintf("membership change pending on leader %d: %s committed=%v", ldr.id, canonConfig(r.configs.Latest), r.configs.IsCommitted())
+		}
 	}
 	if r.ldr.transfer.inProgress() {
 		return false, "leadership transfer still in progress"
